@@ -115,6 +115,8 @@ static int can_be_imm(Janet x, int8_t *out) {
     if (!janet_checkint(x)) return 0;
     int32_t integer = janet_unwrap_integer(x);
     if (integer > INT8_MAX || integer < INT8_MIN) return 0;
+    /* -0.0 passes as the integer 0 but is a different number (1 / -0.0 is -inf) */
+    if (integer == 0 && signbit(janet_unwrap_number(x))) return 0;
     *out = (int8_t) integer;
     return 1;
 }
